@@ -192,7 +192,14 @@ type iter struct {
 	closed bool
 }
 
+// ErrClosed is returned when an iterator is used after Close, as a real backend would.
+var ErrClosed = errors.New("mockstore: iterator used after Close")
+
 func (i *iter) Next(r *logstorage.Record) bool {
+	if i.closed {
+		i.err = ErrClosed
+		return false
+	}
 	if i.s.FailAfter >= 0 && i.n >= i.s.FailAfter {
 		i.err = ErrInjected
 		return false
